@@ -87,7 +87,7 @@ CHECKS = {
     'C08': dict(
         level='fault_enumeration',
         units=[U('^TestC08$', (12, 150), None), U('^TestC08_Thorough$', None, (14, 1500)), U('^TestC08_LongVarfloats$', (3, 400), (2, 20000)), F('FuzzC08', 120)],
-        essential_labels=['cut-inside-bin-block', 'cut:uvarint/n', 'cut:varint/delta', 'cut:varfloat/count', 'cut-inside:mapping', 'fault:undefined-flag', 'fault:mapping-mismatch', 'fault:mapping-mismatch-offset-only', 'fault:mapping-missing', 'varfloat>=8-bytes', 'cut:8-of-9-varfloat-bytes', 'layout:1', 'layout:2', 'layout:3', 'producer:exact-variant'],
+        essential_labels=['cut-inside-bin-block', 'cut:uvarint/n', 'cut:varint/delta', 'cut:varfloat/count', 'cut-inside:mapping', 'fault:undefined-flag', 'fault:mapping-mismatch', 'fault:mapping-mismatch-offset-only', 'fault:mapping-mismatch-repeated-on-same-receiver', 'fault:mapping-missing', 'varfloat>=8-bytes', 'cut:8-of-9-varfloat-bytes', 'layout:1', 'layout:2', 'layout:3', 'producer:exact-variant'],
         assumptions=COMMON_ASSUMPTIONS + ["encodings are sampled; for each sampled encoding every cut point is enumerated (and every undefined flag at every block boundary in the thorough tier)", "arbitrary garbage is not thrown at the sketch decoders: the format lets a well-formed block describe 2^63 bins, which the property does not promise to handle gracefully"],
     ),
     'C09': dict(
